@@ -3,6 +3,7 @@
 From Coq Require Import ZArith QArith List Bool String Permutation.
 Require Import WV.model.C07Tok WV.model.C07Decl WV.model.C07Expand WV.model.C07Full WV.model.C07Var WV.model.C07Units.
 Require Import WV.proofs.C07_decl WV.proofs.C07_expand WV.proofs.C07_full WV.proofs.C07_units WV.proofs.C07_var.
+Require Import WV.gen.GenCssUtils WV.proofs.C07_gen_units.
 Import ListNotations.
 Open Scope string_scope.
 
@@ -241,6 +242,33 @@ Theorem C07_equal_lengths_interchangeable v1 u1 v2 u2 p1 p2 :
   exists x1 x2, length_px v1 u1 = Some x1 /\ length_px v2 u2 = Some x2 /\ (x1 == x2)%Q.
 Proof. exact (equal_lengths_interchangeable v1 u1 v2 u2 p1 p2). Qed.
 Print Assumptions C07_equal_lengths_interchangeable.
+
+(* ---- 4b. the same, about the table REGENERATED from weasyprint/css/utils.py on every run (gen/GenCssUtils.v:
+   lengths_to_pixels, the exact rationals of the source's decimal literals; gen_factor = lookup in it,
+   gen_length_px = computed_values.length over it) *)
+Theorem C07_source_unit_table_is_css u :
+  match gen_factor u, per_inch u with
+  | Some f, Some p => (f * p == 96)%Q
+  | None, None => True
+  | _, _ => False
+  end.
+Proof. exact (gen_table_is_css u). Qed.
+Print Assumptions C07_source_unit_table_is_css.
+
+Theorem C07_source_unit_table_is_model u :
+  match gen_factor u, factor u with
+  | Some f, Some g => (f == g)%Q
+  | None, None => True
+  | _, _ => False
+  end.
+Proof. exact (gen_table_is_model u). Qed.
+Print Assumptions C07_source_unit_table_is_model.
+
+Theorem C07_source_equal_lengths_interchangeable v1 u1 v2 u2 p1 p2 :
+  per_inch u1 = Some p1 -> per_inch u2 = Some p2 -> (v1 / p1 == v2 / p2)%Q ->
+  exists x1 x2, gen_length_px v1 u1 = Some x1 /\ gen_length_px v2 u2 = Some x2 /\ (x1 == x2)%Q.
+Proof. exact (gen_equal_lengths_interchangeable v1 u1 v2 u2 p1 p2). Qed.
+Print Assumptions C07_source_equal_lengths_interchangeable.
 
 (* ---- 5. var() (css/__init__.py resolve_var + ComputedStyle.__missing__) ----
    Subst env key fallback var_name: textual substitution (model/C07Var.v); the implementation stores --a-b under
